@@ -259,6 +259,41 @@ theorem callFn_ok {d : Dialect} (hd : Pres d) {s : Store} (hs : StoreOK s) (f ar
     · cases h
   · cases h
 
+theorem arrSort_mem {ms ms' : List Seq} (h : arrSort ms = .ok ms') : ∀ m ∈ ms', m ∈ ms := by
+  unfold arrSort at h
+  cases hk : ms.mapM (fun m => (seqSortKey m).map fun k => (m, k)) with
+  | none => rw [hk] at h; cases h
+  | some keyed =>
+    rw [hk] at h
+    simp only [arrSortKeyed] at h
+    split at h
+    · injection h with h; subst h
+      intro m hm
+      obtain ⟨p, hp, rfl⟩ := List.mem_map.1 hm
+      have hp' : p ∈ keyed := List.mem_mergeSort.1 hp
+      -- every keyed pair comes from a member
+      have : ∀ (l : List Seq) (r : List (Seq × List SKey)),
+          l.mapM (fun m => (seqSortKey m).map fun k => (m, k)) = some r → ∀ q ∈ r, q.1 ∈ l := by
+        intro l
+        induction l with
+        | nil => intro r hr q hq; simp at hr; subst hr; simp at hq
+        | cons x xs ih =>
+          intro r hr q hq
+          rw [List.mapM_cons] at hr
+          cases hx : seqSortKey x with
+          | none => simp [hx] at hr
+          | some kx =>
+            cases hxs : xs.mapM (fun m => (seqSortKey m).map fun k => (m, k)) with
+            | none => simp [hx, hxs] at hr
+            | some r' =>
+              simp [hx, hxs] at hr
+              subst hr
+              rcases List.mem_cons.1 hq with rfl | hq
+              · simp
+              · exact List.mem_cons_of_mem _ (ih r' hxs q hq)
+      exact this ms keyed hk p hp'
+    · cases h
+
 theorem var_ok {st : St} (hst : StOK st) (i : Nat) : SeqOK st.store.length (st.var i) := by
   unfold St.var
   by_cases hi : i < st.env.length
@@ -536,6 +571,10 @@ theorem evalOp_good {d : Dialect} (hd : Pres d) (ha : d.alias = false) {st : St}
     exact Fn2_ok f (SeqOK_atom _ _) (asMap_EntOK hs hes e he) it hie
   case deq a b =>
     exact good_same hs (SeqOK_atom _ _) h
+  case aSort a =>
+    obtain ⟨r, hr, h⟩ := bind_ok h
+    obtain ⟨ms', hms', h⟩ := bind_ok h
+    exact good_arr hs (fun m hm => asArr_MemOK hs hr m (arrSort_mem hms' m hm)) h
   case call f k first =>
     obtain ⟨r, hr, h⟩ := bind_ok h
     exact good_same hs (callFn_ok hd hs _ _ r hr) h
